@@ -30,19 +30,35 @@ def tid(n):
 
 class C19(Prop):
     id = 'C19'
-    budgets = {'quick': 3000, 'thorough': 30000}
+    budgets = {'quick': 3000, 'thorough': 12000}
     rule = ('random suite trees (depth 0-4, fan-out 0-4) over plain TestSuite / subclass / subclass with sort_tests / '
             'subclass with filter_by_ids / PlaceHolder cases, ids unique or duplicated, id subsets incl. absent ids; '
-            'thorough adds every tree with <= 5 nodes x 3 id patterns x 4 id subsets. non-trivial = at least 2 leaves '
-            'and (a non-plain suite or a duplicate id or a nested suite); distinct = distinct input S-expression')
+            'thorough adds every tree with <= 4 nodes x 3 id patterns x 4 id subsets and every tree with 5 nodes x 1 id pattern x 2 id subsets. Besides the modelled observations every case '
+            'checks two independence requirements on the real objects (a dependence is reported as a trace outside the model\'s '
+            'vocabulary, i.e. a failing input): (1) caller-owned results - a foreign test is added to every suite the first '
+            'filter_by_ids call created (objects not present in the tree before), then an identical fresh tree is filtered again '
+            'and must give the same shape; (2) route independence - --list and --load-list are repeated with the suite reaching '
+            'TestProgram unwrapped through a module load_tests hook (bare test cases and suites with their own filter_by_ids as '
+            'root included) and must list / run the same ids (done whenever the root is such an object and for half of the other cases, for run time). '
+            'non-trivial = at least 2 leaves and (a non-plain suite or a duplicate id or a nested suite); distinct = distinct '
+            'input S-expression')
     assumptions = ['unittest.TestSuite iteration/_tests semantics and unittest.TestProgram argument parsing are modelled, not verified',
-                   'the custom suites\' sort_tests / filter_by_ids are the documented idioms implemented in harness/props/c19.py']
+                   'the custom suites\' sort_tests / filter_by_ids are the documented idioms implemented in harness/props/c19.py',
+                   'object identity / aliasing is not part of the model (trees are values): that filter_by_ids hands out fresh suites and '
+                   'that TestProgram uses the filtered suite however the suite was loaded are checked on the real objects only '
+                   '(independence checks above) and, for the source text, by the translator tie C19_src_*',
+                   'translator tie: harness/pysuite2lean.py reads iterate_tests, filter_by_ids, _flatten_tests, sorted_tests and the '
+                   '--load-list block of TestProgram.__init__ as data; TTV.SuiteUtilSkel gives the data its meaning (trusted: that the '
+                   'interpreter reads the recognised statement forms as Python does); unrecognised statements become .unknown']
 
     manifest = {
         'text': 'Theorems for all suite trees (any depth/fan-out/classes/ids) and id sets: iterate_tests = the case positions in document '
                 'order, once each; filter_by_ids keeps exactly the chosen ids with order, classes and grouping unchanged; sorted_tests is a '
                 'key-ordered permutation with plain suites flattened and custom suites whole, ValueError iff duplicate ids; --list/--load-list '
-                'print/run exactly those. The hand-written model is tied to the code by a differential check (random + bounded-exhaustive trees).',
+                'print/run exactly those. The hand-written model is tied to the code (a) by theorems C19_src_* proving that iterate / filterIds / '
+                'flatten / sortedTests / the --load-list step ARE the interpretation of the statement skeletons re-read from testsuite.py and run.py '
+                'on every run, (b) by a differential check (random + bounded-exhaustive trees) that also requires the results to be independent of '
+                'what the caller did to earlier results and of how the suite reached TestProgram.',
         'note': 'trusted: Lean kernel, the model TTV/Model/Suite.lean, the harness; unittest.TestSuite / TestProgram argument parsing modelled, '
                 'not verified; custom suites implement sort_tests/filter_by_ids by the documented idioms',
         'technique': 'Lean 4 structural-induction proofs over a tree model (mutual recursion), executable spec shared with a differential correspondence check',
@@ -51,6 +67,11 @@ class C19(Prop):
     def __init__(self):
         self.K = None
         self.LOG = []
+
+    def extract_tables(self, repo):
+        """tie: iterate_tests / filter_by_ids / _flatten_tests / sorted_tests / the --load-list block, re-read from the tree"""
+        from harness import pysuite2lean
+        return {'TTV/Generated/SuiteSrc.lean': pysuite2lean.generate(repo)}
 
     def classes(self):
         if self.K is None:
@@ -130,7 +151,7 @@ class C19(Prop):
             # the same two commands with the suite reaching TestProgram unwrapped (a module whose load_tests hook returns it, no
             # test names on the command line) must list and run the same tests - also when the root is a bare test or a suite
             # whose own filter_by_ids returns a new suite
-            for flag in (('--list', '--load-list') if (len(ids) + sum(ids)) % 2 == 0 or len(str(tree)) < 60 else ()):   # (half of the larger cases: run time)
+            for flag in (('--list', '--load-list') if self.unwrapped_route(inp) else ()):
                 root3 = self.build(tree)
                 mod2 = types.ModuleType('verif_c19_mod2')
                 mod2.load_tests = lambda loader, tests, pattern, _r=root3: _r
@@ -150,6 +171,12 @@ class C19(Prop):
             return [it, fshape, fit, srt, listed, loaded]
         except Exception as e:
             return ['raised', type(e).__name__]
+
+    def unwrapped_route(self, inp):
+        """is the second TestProgram route exercised for this input?  Always when the root is a bare test case or a suite with its
+        own filter_by_ids (the roots for which filter_by_ids returns a NEW object), for half of the other cases (run time)"""
+        tree, ids = inp
+        return tree[0] in ('case', 'cfilter') or (len(ids) + sum(ids)) % 2 == 0
 
     # ----- generators
     def gen_tree(self, rng, depth, ids):
@@ -208,9 +235,10 @@ class C19(Prop):
                 pats = [list(range(nl, 0, -1)), list(range(1, nl + 1))]
                 if nl >= 2:
                     pats.append([1, 1] + list(range(2, nl)))
-                for pat in pats[: (1 if nl == 0 else 3)]:
+                for pat in pats[: (1 if nl == 0 or n == 5 else 3)]:      # (5 nodes: one id pattern, two id subsets - run time)
                     tree = self.assign(sh, iter(pat))
-                    for sel in ([], sorted(set(pat)), [x for x in sorted(set(pat)) if x % 2 == 0], pat[:1] + [100]):
+                    sels = ([], sorted(set(pat)), [x for x in sorted(set(pat)) if x % 2 == 0], pat[:1] + [100])
+                    for sel in (sels[2:] if n == 5 else sels):
                         yield [tree, sel]
 
     def nontrivial(self, inp, trace):
@@ -229,6 +257,10 @@ class C19(Prop):
                 f.append('kind:' + k)
         if trace and trace[0] == 'raised':
             f.append('raised:' + trace[1])
+        else:
+            f.append('caller-owned-check')
+            if self.unwrapped_route(inp):
+                f.append('unwrapped-route-check' + (':bare-case-root' if tree[0] == 'case' else ':cfilter-root' if tree[0] == 'cfilter' else ''))
         return f
 
     def shrink(self, inp):
